@@ -1,0 +1,104 @@
+//! Verification hooks (only compiled with `--cfg iroh_verif`).
+//!
+//! Exposes the crate-private [`ZoneStore`] with an in-memory or caller-supplied redb
+//! database, so that a conformance harness can drive `insert` / `resolve` /
+//! `get_signed_packet` directly, and tagged pause points for forced interleavings.
+#![allow(missing_docs, missing_debug_implementations, clippy::unwrap_used)]
+
+use std::{fmt::Display, sync::Arc, time::Duration};
+
+pub use hickory_server::proto;
+use hickory_server::proto::rr::{Name, RecordSet, RecordType};
+use iroh_dns::pkarr::SignedPacket;
+use n0_error::Result;
+
+use crate::{
+    metrics::Metrics,
+    store::{Options, PacketSource, ZoneStore},
+    util::PublicKeyBytes,
+};
+
+/// Batching / eviction options of the packet store (mirror of the private `Options`).
+#[derive(Debug, Clone, Copy)]
+pub struct StoreOptions {
+    pub max_batch_size: usize,
+    pub max_batch_time: Duration,
+    pub eviction: Duration,
+    pub eviction_interval: Duration,
+}
+
+impl From<StoreOptions> for Options {
+    fn from(o: StoreOptions) -> Self {
+        Options {
+            max_batch_size: o.max_batch_size,
+            max_batch_time: o.max_batch_time,
+            eviction: o.eviction,
+            eviction_interval: o.eviction_interval,
+        }
+    }
+}
+
+/// Content of the packet store: rows of the packet table and of the update-time index.
+#[derive(Debug, Clone, Default)]
+pub struct StoreDump {
+    /// `(key, stored packet bytes)`; `Err` text if the row does not decode.
+    pub packets: Vec<([u8; 32], std::result::Result<Vec<u8>, String>)>,
+    /// `(timestamp micros, key)`
+    pub index: Vec<(u64, [u8; 32])>,
+}
+
+/// The real [`ZoneStore`] (cache + packet store actor), without HTTP / DNS front ends.
+#[derive(Clone)]
+pub struct VerifZoneStore(ZoneStore);
+
+impl VerifZoneStore {
+    /// Store on redb's in-memory backend.
+    pub fn in_memory(options: StoreOptions) -> Result<Self> {
+        let db = redb::Database::builder()
+            .create_with_backend(redb::backends::InMemoryBackend::new())
+            .map_err(|e| n0_error::anyerr!("{e}"))?;
+        Self::with_database(db, options)
+    }
+
+    /// Store on a caller-supplied redb database (any `StorageBackend`).
+    pub fn with_database(db: redb::Database, options: StoreOptions) -> Result<Self> {
+        let metrics = Arc::new(Metrics::default());
+        Ok(Self(ZoneStore::verif_with_database(db, options.into(), metrics)?))
+    }
+
+    /// `ZoneStore::insert`
+    pub async fn insert(&self, packet: SignedPacket) -> Result<bool> {
+        self.0.insert(packet, PacketSource::PkarrPublish).await
+    }
+
+    /// `ZoneStore::get_signed_packet`
+    pub async fn get_signed_packet(&self, key: &[u8; 32]) -> Result<Option<SignedPacket>> {
+        self.0.get_signed_packet(&PublicKeyBytes::new_unchecked(*key)).await
+    }
+
+    /// `ZoneStore::resolve`
+    pub async fn resolve(
+        &self,
+        key: &[u8; 32],
+        name: &Name,
+        record_type: RecordType,
+    ) -> Result<Option<Arc<RecordSet>>> {
+        self.0.resolve(&PublicKeyBytes::new_unchecked(*key), name, record_type).await
+    }
+
+    /// Committed content of both tables (read snapshot taken by the store actor).
+    pub async fn dump(&self) -> Result<StoreDump> {
+        self.0.verif_dump().await
+    }
+}
+
+/// Pause point `"<point>:<tag>"` (no-op unless the harness armed that label).
+pub(crate) async fn pause(point: &str, tag: impl Display) {
+    iroh_dns::verif::pause_async(&format!("{point}:{tag}")).await
+}
+
+/// Tag identifying one packet in pause-point labels: `<timestamp micros>-<first signature bytes>`.
+pub fn packet_tag(packet: &SignedPacket) -> String {
+    let sig = packet.signature().to_bytes();
+    format!("{}-{:02x}{:02x}{:02x}{:02x}", packet.timestamp().as_micros(), sig[0], sig[1], sig[2], sig[3])
+}
